@@ -88,9 +88,9 @@ type interpreter struct {
 	goroutines         int32                  // atomically updated
 
 	ex        *Explorer
-	stubs     map[string]value          // per-harness models registered with verif_stub
-	initState map[*ssa.Package]int      // 0 = not run, 1 = running, 2 = done, 3 = aborted
-	conc      concHandler               // concurrency semantics (sequential or thread-tree extraction)
+	stubs     map[string]value     // per-harness models registered with verif_stub
+	initState map[*ssa.Package]int // 0 = not run, 1 = running, 2 = done, 3 = aborted
+	conc      concHandler          // concurrency semantics (sequential or thread-tree extraction)
 	curFrame  *frame
 	nextChan  int
 	harnessPk *ssa.Package
@@ -102,7 +102,7 @@ type interpreter struct {
 	// memory budget of "memory proportional to the input" harnesses: elements
 	// allocated by make() since verif_alloc_limit was called
 	allocLimit, allocUsed int64
-	slices    [][]value
+	slices                [][]value
 }
 
 type deferred struct {
@@ -126,7 +126,7 @@ type frame struct {
 	phitemps         []value // temporaries for parallel phi assignment
 	pos              token.Pos
 	skipPhis         bool
-	tolerant         bool    // package initialiser: failing statements poison their result
+	tolerant         bool // package initialiser: failing statements poison their result
 }
 
 func (fr *frame) get(key ssa.Value) value {
